@@ -120,6 +120,16 @@ static inline size_t vp_back(size_t n)
     __CPROVER_assume(v->p != 0);                                                             \
     VP_COPY_AT_GHOST(v->p, src->p, n)                                                        \
   }                                                                                          \
+  static inline void vp_##NAME##_from_range(NAME *v, const NAME *src, size_t lo, size_t hi)   \
+  {                                                                                          \
+    /* std::vector(first, last): fresh storage of hi-lo elements, equal AT the ghost indices */ \
+    __CPROVER_assert(lo <= hi && hi <= src->n, "iterator range inside the source vector");   \
+    size_t n = hi - lo;                                                                      \
+    __CPROVER_assert(n <= VP_MAXN, "vector size within the verified bound");                 \
+    v->p = (ELEM *)malloc((n ? n : 1) * sizeof(ELEM)); v->n = n; v->cap = n;                 \
+    __CPROVER_assume(v->p != 0);                                                             \
+    VP_COPY_AT_GHOST(v->p, (src->p + lo), n)                                                 \
+  }                                                                                          \
   static inline ELEM *vp_##NAME##_emplace(NAME *v)                                           \
   {                                                                                          \
     __CPROVER_assert(v->n < v->cap, "emplace_back within reserved capacity");                \
